@@ -164,7 +164,13 @@ pub fn build(kw: &str, lang: Lang, missing: bool, second: bool, bad: usize, pre:
             return None;
         }
         let w = words[bad % words.len()];
-        (format!("{kw} {w}"), w.to_string(), "invalid")
+        // the same word written between quotes (the argument word is then the quoted content), for
+        // the languages that are not themselves 'word or quoted string'
+        match (bad / words.len()) % 3 {
+            1 if lang != Lang::Perm => (format!("{kw} '{w} {w}'"), format!("{w} {w}"), "invalid"),
+            2 if lang != Lang::Perm => (format!("{kw} \"{w}\""), w.to_string(), "invalid"),
+            _ => (format!("{kw} {w}"), w.to_string(), "invalid"),
+        }
     };
     // a missing argument is only missing at the end of the input or before ')'
     let suffix = if missing { "" } else { SUFFIXES[suf % SUFFIXES.len()] };
@@ -184,7 +190,7 @@ pub fn run(ctx: &Ctx) -> Report {
                         st.record(&v, stable_hash(&c), true, || case_json(&c));
                     }
                 }
-                for bad in 0..4 {
+                for bad in 0..12 {
                     for suf in 0..SUFFIXES.len() {
                         if let Some(c) = build(kw, *lang, false, false, bad, pre, suf, paren) {
                             let v = judge(&c);
@@ -222,7 +228,7 @@ pub fn run(ctx: &Ctx) -> Report {
             Case { kind: "unknown".into(), input, keyword: None, word: w, first: pre == 0 && !paren }
         });
         run_prop(&mut st, ctx.seed, "C18-unknown", shard as u64, cases / 32, &strat, judge, case_json);
-        let strat = (0usize..ARG_KEYWORDS.len(), any::<bool>(), any::<bool>(), 0usize..4, 0usize..PREFIXES.len(), 0usize..SUFFIXES.len(), any::<bool>())
+        let strat = (0usize..ARG_KEYWORDS.len(), any::<bool>(), any::<bool>(), 0usize..12, 0usize..PREFIXES.len(), 0usize..SUFFIXES.len(), any::<bool>())
             .prop_filter_map("no such case", |(k, missing, second, bad, pre, suf, paren)| build(ARG_KEYWORDS[k].0, ARG_KEYWORDS[k].1, missing, second, bad, pre, suf, paren));
         run_prop(&mut st, ctx.seed, "C18-arg", shard as u64, cases / 32, &strat, judge, case_json);
         st
